@@ -33,7 +33,7 @@ def main():
     n_in = 0
     for (c, r), rep in zip(keep, reps):
         flags = [x == "true" for x in C.parse(rep)[1:]]
-        flags[2] = True          # outcomeNotCondition is reported by the driver but is not part of the class
+        flags[2] = flags[6] = True   # outcomeNotCondition and "D* in ctfSoundClass" (implied) are reported but not part of the class
         good = r["out"][4] == "value_ok"
         if all(flags):
             n_in += 1
